@@ -19,7 +19,9 @@ pub const NAMES: [&str; 11] = [
 
 const H: i64 = 3600;
 
-fn tree(t: &[i64; 11], ta_payload: bool) -> TreeSpec {
+fn tree(t: &[i64; 11], ta_payload: bool) -> TreeSpec { tree_v(t, ta_payload, 1) }
+
+fn tree_v(t: &[i64; 11], ta_payload: bool, version: u64) -> TreeSpec {
     let mut ta = CaSpec::new("ta0", 0, "ta0.example", "repo");
     ta.v4 = vec![(Ipv4Addr::new(10, 0, 0, 0), 8)];
     ta.asns = vec![(64496, 64511)];
@@ -27,6 +29,8 @@ fn tree(t: &[i64; 11], ta_payload: bool) -> TreeSpec {
     ta.mft_ee_not_after = t[1];
     ta.mft_next_update = t[2];
     ta.crl_next_update = t[3];
+    ta.mft_number = version;
+    ta.mft_this_update += 60 * (version as i64 - 1);
     if ta_payload {
         // the ancestor contributes payload of its own (two contributing
         // points); its EE certificate is never the earliest expiry
@@ -41,6 +45,8 @@ fn tree(t: &[i64; 11], ta_payload: bool) -> TreeSpec {
     ca.mft_ee_not_after = t[5];
     ca.mft_next_update = t[6];
     ca.crl_next_update = t[7];
+    ca.mft_number = version;
+    ca.mft_this_update += 60 * (version as i64 - 1);
     let mut roa = ObjSpec::roa("r1", 64500, "10.1.0.0", 16, 16);
     roa.not_after = Some(t[8]);
     let mut aspa = ObjSpec::aspa("a1", 64500, &[64501]);
@@ -127,6 +133,40 @@ pub fn run_case(gen: &Gen, dir: std::path::PathBuf, c: &CaseSpec) -> Result<Stri
     }
 }
 
+/// The deadline of the data set the server has *installed*: a first run
+/// in which everything lives 3 h, then a run with the same payload in
+/// which timestamp `i` is 1 h - both through `SharedHistory::update`.
+fn installed_case(gen: &Gen, dir: std::path::PathBuf, i: usize) -> Result<String, (String, String)> {
+    use routinator::payload::SharedHistory;
+    let now = Time::now();
+    let mut t = [3 * H; 11];
+    let first = Builder::at(gen, Stale::Reject, now).build(&tree_v(&t, false, 1));
+    t[i] = H;
+    let second = Builder::at(gen, Stale::Reject, now).build(&tree_v(&t, false, 2));
+    let case = Case::new(dir);
+    case.write_tals(&first);
+    let config = case.config();
+    let history = SharedHistory::from_config(&config);
+    let err = |e: String| ("run-failed".to_string(), e);
+    for image in [&first, &second] {
+        case.publish(image);
+        let (report, metrics) = etree::run_report(&config).map_err(err)?;
+        history.update(report, &LocalExceptions::empty(), metrics);
+        history.mark_update_done();
+    }
+    let _ = std::fs::remove_dir_all(&case.dir);
+    let deadline = now + TimeDelta::try_seconds(H).unwrap();
+    let current = history.read().current().ok_or(("no-refresh".to_string(), "nothing installed".to_string()))?;
+    match current.refresh() {
+        None => Err(("no-refresh".into(), "installed snapshot has no refresh deadline".into())),
+        Some(r) if r > deadline => Err((format!("refresh-too-late:{}:installed", NAMES[i]), format!(
+            "after a run with unchanged payload in which {} moved from +3h to +1h, the installed data set's refresh deadline is still {} ({} s after the earliest expiry)",
+            NAMES[i], r.to_rfc3339(), r.timestamp() - deadline.timestamp()
+        ))),
+        Some(_) => Ok("installed:refresh<=min".into()),
+    }
+}
+
 pub fn run(ctx: &Ctx) -> Report {
     util::quiet_panics();
     let gen = Gen::load();
@@ -140,8 +180,12 @@ pub fn run(ctx: &Ctx) -> Report {
         at +2h and at +3h), every pair of minima, on the fetch path and on \
         the stored-data path (offline second run); thorough adds the full \
         3^9 product over the ROA's chain; oracle: snapshot.refresh() <= \
-        generation time + minimum; non-trivial = cases with a unique \
-        minimum".into();
+        generation time + minimum; each assignment also with the TA \
+        publishing a ROA of its own (two contributing points); and for \
+        each of the 11 timestamps a two-run history through \
+        SharedHistory::update (everything +3h, then the same payload with \
+        that timestamp at +1h): the installed data set's deadline must \
+        follow; non-trivial = cases with a unique minimum".into();
     rep.bound = format!("{} timestamp assignments", cases.len());
     let threads = std::env::var("ETREE_THREADS").ok().and_then(|s| s.parse().ok()).unwrap_or(8);
     let res = util::par_map(cases.len() as u64, threads, |i| {
@@ -161,6 +205,21 @@ pub fn run(ctx: &Ctx) -> Report {
             }
         }
     }
+    // what the server installs after a run with unchanged payload and an earlier deadline
+    let res = util::par_map(11, threads, |i| {
+        util::catch(|| installed_case(&gen, ctx.scratch.join(format!("inst{i}")), i as usize)).unwrap_or_else(|p| Err(("panic".into(), p)))
+    });
+    for (i, r) in res.into_iter().enumerate() {
+        rep.evaluations += 1;
+        rep.nontrivial += 1;
+        match r {
+            Ok(o) => rep.outcome(o),
+            Err((class, msg)) => {
+                rep.outcome(format!("VIOLATION:{}", class.split(':').next().unwrap()));
+                rep.violation(format!("refresh:{class}"), msg, json!({"installed": i}));
+            }
+        }
+    }
     rep.sample(json!({"minimum": "CA CRL nextUpdate (+1h)", "others": "+3h", "path": "stored"}));
     rep
 }
@@ -168,6 +227,14 @@ pub fn run(ctx: &Ctx) -> Report {
 pub fn replay(ctx: &Ctx, v: &Value) -> Report {
     let gen = Gen::load();
     let mut rep = Report::new("exploration");
+    if let Some(i) = v["installed"].as_u64() {
+        let r = installed_case(&gen, ctx.scratch.join("replay"), i as usize);
+        println!("installed, {}: {r:?}", NAMES[i as usize]);
+        if let Err((class, msg)) = r { rep.violation(format!("refresh:{class}"), msg, v.clone()); }
+        rep.evaluations = 1; rep.nontrivial = 2;
+        rep.sample(v.clone());
+        return rep
+    }
     let mut t = [0i64; 11];
     for (i, x) in v["t"].as_array().unwrap().iter().enumerate() { t[i] = x.as_i64().unwrap(); }
     let c = CaseSpec { t, stored: v["stored"].as_bool().unwrap(), ta_payload: v["ta_payload"].as_bool().unwrap_or(false) };
